@@ -22,7 +22,7 @@ TRUSTED = [
 THEOREMS = ['sched_step_spec', 'sched_history_fold', 'ctor_refuses_callable', 'exp_decay_is_min', 'exp_decay_range',
             'exp_decay_monotone', 'exp_decay_step0', 'exp_decay_errors', 'exp_decay_float_range', 'exp_decay_float_monotone', 'exp_decay_float_step01']
 NAMES = ['factor_update_steps', 'inv_update_steps', 'damping', 'factor_decay', 'kl_clip', 'lr']
-NOTES = 'exp_decay monotonicity and range are theorems over Q; under IEEE rounding they are checked, not proved.'
+NOTES = 'exp_decay monotonicity and range are theorems over Q and, for the binary64 reading the code computes, over IEEE rounding (exp_decay_float_*, Flocq).'
 
 
 def fr(x):
@@ -37,6 +37,8 @@ def gen_case(rng, tier, stream):
             'kl_clip': rng.choice([Fraction(1, 1024), Fraction(1, 2), Fraction(5)]),
             'lr': rng.choice([Fraction(1, 8), Fraction(1), Fraction(3)])}
     callable_ = {n: (rng.random() < (0.12 if stream == 'B' else 0.0)) for n in NAMES}
+    # a real-valued hyper-parameter with an integral initial value may be given as a Python int (lr=1): it is still only multiplied
+    int_init = {n: (not n.endswith('_steps') and Fraction(init[n]).denominator == 1 and rng.random() < 0.5) for n in NAMES}
     sched = {n: (rng.random() < 0.55) for n in NAMES}
     tables = {}
     for n in NAMES:
@@ -85,7 +87,7 @@ def gen_case(rng, tier, stream):
         keep += 1
     ops = ops[:keep]
     return {'init': {k: fr(Fraction(v)) for k, v in init.items()}, 'callable': callable_, 'tables': {k: [fr(x) for x in v] for k, v in tables.items()},
-            'ops': ops, 'stream': stream}
+            'ops': ops, 'stream': stream, 'int_init': int_init}
 
 
 def model_arg(c):
@@ -104,7 +106,7 @@ def run_impl(c):
     kw = {}
     for n in NAMES:
         v = init[n]
-        val = int(v) if n.endswith('_steps') else float(v)
+        val = int(v) if n.endswith('_steps') or c.get('int_init', {}).get(n) else float(v)
         kw[n] = (lambda s, val=val: val) if c['callable'][n] else val
     p = KFACPreconditioner(model, **kw)
     calls = []
